@@ -109,7 +109,7 @@ def run(ctx):
     for k, item in enumerate(work):
         if not ctx.mine(k):
             continue
-        with ctx.guard(600):
+        with ctx.guard(600 if not thorough else 2400):
             if item[0] == "graph":
                 _, n, edges, acyclic = item
                 forms = ("var", "mixed") if n >= 4 else ("var", "neg", "expr", "const", "mixed")
